@@ -99,14 +99,11 @@ class C04(DiffProperty):
                   "extraction + OCaml driver; harnesses. The specification is told (hint_of) the NoCopy/shared/immutable flags and "
                   "capacity of the target's buffer where the interface leaves the verdict to them (NoCopy refusal, capacity "
                   "precondition of the in-place mpt_buffer_* functions, partial slice writes) and whether a slice window lies inside "
-                  "the data (harness guard of slice::shift/trim and array = slice). OPEN: mpt++ array::insert (double offset, "
-                  "new buffer never installed, heap overflow) and array::set(const value&) (always fails) are defective on /repo; "
-                  "they are modelled as patched (docs/C04_cxx_patches.diff, verified on a scratch tree) and driven only once the "
-                  "patch is in the tree. Not covered: typed_array / unique_array / pointer_array / map templates (negative "
+                  "the data (harness guard of slice::shift/trim and array = slice). mpt++ array::insert (double offset, new buffer never installed, heap overflow) and array::set(const value&) "
+                  "(always failed) were found defective and repaired in /repo (74201ae, aa1131c). Not covered: typed_array / unique_array / pointer_array / map templates (negative "
                   "slice::shift/trim, too), buffers with init/fini callbacks (C05), malloc failure paths. See docs/notes_C04.md.")
     technique = "Coq refinement proof (refcounted buffer heap -> value vectors) + differential correspondence check"
     assumptions = ["malloc succeeds", "buffers carry no init/fini callbacks (raw or POD element types)",
-                   "mpt++ array::insert and array::set(const value&) behave as in docs/C04_cxx_patches.diff (not yet in /repo)",
                    "vsnprintf(\"%s\") copies at most cap-1 bytes, stores a NUL and returns the text length"]
 
     # ------------------------------------------------------------ token handling
@@ -202,12 +199,9 @@ class C04(DiffProperty):
         return res, errs + e2
 
     def cxx_patched(self):
-        """which of the two proposed patches of docs/C04_cxx_patches.diff the tree under test contains"""
-        try:
-            txt = open(os.path.join(vcheck.REPO, "mpt++", "array.cpp")).read()
-        except OSError:
-            return False, False
-        return "mpt_array_insert(this" in txt, "mpt_buffer_set(buf, traits, 0, ptr, len)" in txt
+        """array::insert and array::set(const value&) were repaired in /repo (fix: commits 74201ae, aa1131c; known_findings.json
+        kind "fixed"); both are always driven, so a return of either defect is reported as a VIOLATION"""
+        return True, True
 
     def cxx_sweep(self, rng):
         ins_ok, sets_ok = self.cxx_patched()
